@@ -21,7 +21,9 @@ pub enum Ev {
     EpochUp(u64),
     NewImmutable,
     Blocks(u64),
-    Register { who: Vec<usize> },
+    /// `label_offset` = difference between the epoch the registration is labelled with and the epoch
+    /// of the open round (0 = as an honest signer does)
+    Register { who: Vec<usize>, label_offset: i64 },
     /// sign the open message the aggregator is (or would be) working on for a discriminant
     Sign { disc: SignedEntityTypeDiscriminants, who: Vec<usize>, mode: SignMode, authenticated: bool },
     Expire { disc: SignedEntityTypeDiscriminants },
@@ -238,7 +240,7 @@ impl Run {
                 }
             }
             82 => Ev::Blocks(15 + rnd::below(rng, 30)),
-            83..=91 => Ev::Register { who: subset(rng, 70) },
+            83..=91 => Ev::Register { who: subset(rng, 70), label_offset: if rnd::chance(rng, 1, 6) { *rnd::pick(rng, &[-2i64, -1, 1]) } else { 0 } },
             92..=93 => Ev::Expire { disc: if open_discs.is_empty() { *rnd::pick(rng, &DISCS) } else { *rnd::pick(rng, open_discs) } },
             94..=97 => Ev::Restart,
             _ => Ev::Tick,
@@ -273,7 +275,8 @@ impl Run {
             Ev::EpochUp(_) => "epoch+n",
             Ev::NewImmutable => "new-immutable",
             Ev::Blocks(_) => "blocks",
-            Ev::Register { .. } => "register",
+            Ev::Register { label_offset: 0, .. } => "register",
+            Ev::Register { .. } => "register-wrong-round-label",
             Ev::Sign { mode: SignMode::Valid, .. } => "sign-valid",
             Ev::Sign { mode: SignMode::Repeat, .. } => "sign-repeat",
             Ev::Sign { mode: SignMode::WrongMessage, .. } => "sign-wrong-message",
@@ -317,8 +320,9 @@ impl Run {
                 entry["block"] = json!(b);
                 entry["slot"] = json!(s);
             }
-            Ev::Register { who } => {
-                let reg_epoch = Epoch(self.chain_epoch).offset_to_recording_epoch();
+            Ev::Register { who, label_offset } => {
+                let honest_label = Epoch(self.chain_epoch).offset_to_recording_epoch();
+                let reg_epoch = Epoch((*honest_label as i64 + *label_offset).max(0) as u64);
                 let fixtures = self.fixture.signers_fixture();
                 let mut acks = vec![];
                 for &i in who {
@@ -328,9 +332,14 @@ impl Run {
                         Ok(_) => true,
                         Err(e) => format!("{e:?}").contains("ExistingSigner"),
                     };
-                    if ok {
+                    if ok && *label_offset == 0 {
                         // registered during chain epoch e => signs at e + 2
                         self.model.signing_set.entry(self.chain_epoch + 2).or_default().insert(i);
+                    }
+                    if ok && *label_offset != 0 {
+                        // a registration labelled for another round is not a registration for the
+                        // open round: the model does not count it (M3 then judges the key)
+                        mon.count("diag:registration_with_wrong_round_label_acknowledged");
                     }
                     acks.push(json!({"signer": i, "ack": ok, "err": r.err().map(|e| format!("{e:?}").chars().take(120).collect::<String>())}));
                     mon.count(if ok { "registration_acked" } else { "registration_refused" });
@@ -643,6 +652,22 @@ pub async fn check_step(run: &mut Run, mon: &mut Monitor, history_id: &str) -> S
                     }
                 }
                 Err(_) => mon.violation("C14 certificate for an epoch without registered signers", &format!("epoch {epoch}"), replay(run, json!({"certificate_id": id}))),
+            }
+            // the key this certificate commits to for the NEXT epoch (signed in its protocol message)
+            // must be the one derived from the logged registrations as well
+            if let Some(next_avk) = row_json(row, "protocol_message").get("message_parts").and_then(|p| p.get("next_aggregate_verification_key")).and_then(|v| v.as_str()) {
+                let next_signers = run.signers_at(epoch + 1);
+                if !next_signers.is_empty() {
+                    if let Ok(b) = SignerBuilder::new(&next_signers, &pp) {
+                        let want = mithril_common::crypto_helper::ProtocolKey::new(b.compute_aggregate_verification_key().to_concatenation_aggregate_verification_key().to_owned()).to_json_hex().unwrap_or_default();
+                        mon.count("M3:next_aggregate_key_commitments_checked");
+                        if want != next_avk {
+                            mon.violation("C14 certificate commits to a next aggregate key that is not the one derived from the registrations of the round",
+                                &format!("epoch {epoch}: next_aggregate_verification_key differs from the key recomputed from the {} signers whose registration for the round was acknowledged", next_signers.len()),
+                                replay(run, json!({"certificate_id": id, "model_set_next_epoch": run.model.signing_set.get(&(epoch + 1))})));
+                        }
+                    }
+                }
             }
             if let Ok(p) = serde_json::from_str::<ProtocolParameters>(row_str(row, "protocol_parameters")) {
                 if p != pp {
